@@ -51,16 +51,57 @@ def main():
     except common.Broken as e:
         res.broken.append({"what": "proof obligations of %s no longer check" % prop, "log": str(e)[-4000:]})
         common.log(str(e)[-3000:])
-    # 3. correspondence + property oracle on the implementation (doubles as the failing-input search)
-    try:
-        mod.run(res)
-    except common.Broken as e:
-        res.broken.append({"what": "correspondence machinery failed", "log": str(e)[-4000:]})
-        common.log(str(e)[-3000:])
-    except Exception:
-        tb = traceback.format_exc()
-        res.broken.append({"what": "check crashed", "log": tb[-4000:]})
-        common.log(tb)
+    # 3. correspondence + property oracle on the implementation (doubles as the failing-input search).
+    #    Runs in a child process: an abort()/segfault inside the freshly built C library must not
+    #    take the check down without a verdict.
+    import pickle
+    import signal
+    common.scratch_root()
+    rfile = os.path.join(common.scratch_root(), "result.pickle")
+    sys.stdout.flush()
+    sys.stderr.flush()
+    pid = os.fork()
+    if pid == 0:
+        code = 0
+        try:
+            import atexit
+            atexit._clear()
+            try:
+                mod.run(res)
+            except common.Broken as e:
+                res.broken.append({"what": "correspondence machinery failed", "log": str(e)[-4000:]})
+                common.log(str(e)[-3000:])
+            except Exception:
+                tb = traceback.format_exc()
+                cur = common.get_current()
+                if cur is not None:
+                    res.violation("implementation-raised-unexpectedly", "the implementation raised where the property requires success",
+                                  cur, "no exception", tb[-1500:])
+                else:
+                    res.broken.append({"what": "check crashed", "log": tb[-4000:]})
+                common.log(tb)
+            with open(rfile, "wb") as f:
+                pickle.dump(res, f)
+        except BaseException:
+            traceback.print_exc()
+            code = 3
+        sys.stdout.flush()
+        sys.stderr.flush()
+        os._exit(code)
+    _, status = os.waitpid(pid, 0)
+    if os.path.exists(rfile) and os.WIFEXITED(status) and os.WEXITSTATUS(status) == 0:
+        child = pickle.load(open(rfile, "rb"))
+        child.proof = res.proof
+        child.t0 = res.t0
+        res = child
+    else:
+        sig = os.WTERMSIG(status) if os.WIFSIGNALED(status) else None
+        cur = common.get_current()
+        what = "the check's implementation run died (%s)" % (("signal %d" % sig) if sig else "exit status %r" % status)
+        if cur is not None:
+            res.violation("implementation-crashed", what + " while running this case", cur, "normal return", what)
+        else:
+            res.broken.append({"what": what})
     return common.finish(res, level=getattr(mod, "LEVEL", "proof"))
 
 
